@@ -705,7 +705,7 @@ func parseShortTermRPS(r *bits.EBSPReader, idx, numSTRefPicSets byte, sps *SPS) 
 			deltaIdx = byte(r.ReadExpGolomb() + 1)
 			// parse delta_idx_minus1
 		}
-		if deltaIdx > idx {
+		if deltaIdx == 0 || deltaIdx > idx { // 0: delta_idx_minus1 + 1 wrapped in uint8
 			r.SetError(fmt.Errorf("deltaIdx > idx in parseShortTermRPS"))
 			return stps // idx - deltaIdx would index outside the reference picture sets
 		}
